@@ -205,6 +205,9 @@ impl FillValues {
         },
         [[L: none_only_when_exhausted]]
         r is None ==> old(self).pending_().len() == 0 && final(self).pending_().len() == 0,
+    // measure for a `next` that calls itself (today it does not): the pending input must have shrunk.  Without it
+    // a recursive edit is rejected by the front end (undecided) instead of being judged against the clauses above.
+    decreases old(self).pending_().len(),
 //@at /return Some\(Ok\(last\)\);/ before
             proof {
                 assert(pending(*old(self)).drop_first() =~= self.iter.rest());
